@@ -465,5 +465,8 @@ PROPS["C18"]["explanation"] = PROPS["C18"]["explanation"].replace(" Not decided 
 PROPS["C18"]["rules"] = PROPS["C18"]["rules"] + [rules_idioms.rule_out_param_not_reseated]
 PROPS["C18"]["explanation"] = PROPS["C18"]["explanation"].replace(" Not decided (value-level)", " (OUTPARAM) a pointer out-parameter is written through, never re-seated with a constant. Not decided (value-level)")
 
+PROPS["C01"]["rules"] = PROPS["C01"]["rules"] + [rules_limits.rule_transfer_bound_has_position]
+PROPS["C01"]["explanation"] += " (POSNTERM) every comparison of a transfer length with the element's length in Hread/Hwrite includes the handle's position. (NEGLEN) caller-supplied lengths are compared with 0 before they reach a descriptor."
+
 NOT_APPLICABLE = {}
 
